@@ -22,7 +22,7 @@ RULE = ("history = event sequence over {key-addressed operation (get, set, delet
         "client_class (each method call is a contact) and real Clients over the fake network (connect/sendall events "
         "grouped per public call are contacts). Bounded-exhaustive: every sequence up to depth 5 (thorough 7) over an "
         "8-symbol alphabet (2 servers; get on each, set_many; three advances; fail/heal of server 0) x all six "
-        "configurations; 'probe trains' - server 0 failing, then every sequence of up to 7 (thorough 9) gaps drawn from {below retry_timeout, above it, above dead_timeout} each followed by an operation, with and without a heal part-way; the same trains to depth 3 (thorough 5) over real Clients on the fake network for each of the five failure kinds, half of them on the ElastiCache subclass (servers learnt from a configuration endpoint; same failover machinery); 'two outages' - three servers, two of them starting to fail at different instants of a 10-point time grid whose gaps straddle dead_timeout in several ways, traffic on every key at every subset of the remaining instants (one server is evicted while another is being brought back); Hypothesis sequences up to length 40. Observation through public seams only: the contact log "
+        "configurations; 'probe trains' - server 0 failing, then every sequence of up to 7 (thorough 9) gaps drawn from {below retry_timeout, above it, above dead_timeout} each followed by an operation, with and without a heal part-way; the same trains to depth 3 (thorough 5) over real Clients on the fake network for each of the five failure kinds, half of them on the ElastiCache subclass (servers learnt from a configuration endpoint; same failover machinery); the trains again with a close() / disconnect_all() of the HashClient inserted at every position (dropping connections is not a membership change); 'two outages' - three servers, two of them starting to fail at different instants of a 10-point time grid whose gaps straddle dead_timeout in several ways, traffic on every key at every subset of the remaining instants (one server is evicted while another is being brought back); Hypothesis sequences up to length 40. Observation through public seams only: the contact log "
         "and a hasher passed as hasher= (a RendezvousHash subclass, or a minimal class offering only the documented get_node/add_node/remove_node) that records (rotation at that instant, key, node) for every "
         "routing decision. Oracle: per continuous failing interval of a server, <= 2 contacts in any retry_timeout "
         "window and <= retry_attempts+2 in any dead_timeout window; every routing decision equals the reference "
@@ -55,9 +55,16 @@ ERR = {"refused": lambda: ConnectionRefusedError(111, "refused"), "timeout": lam
 class _T:
     def __init__(self, clock):
         self.clock = clock
+        self._origin = float(clock.now) - 4321.5
 
     def time(self):
         return float(self.clock.now)
+
+    # same virtual clock, unrelated origin: either clock may be used, readings of the two may not be mixed
+    def monotonic(self):
+        return float(self.clock.now) - self._origin
+
+    perf_counter = monotonic
 
 
 class Scripted:
@@ -284,6 +291,14 @@ def _run(case, hc, servers, names, owner, key_of, routes, world, env, clock):
                     env.servers[ev[1] % ns].down = ev[2]
             hist.append(("fail", ev[1] % ns, ev[2]))
             continue
+        if kind in ("close", "disconnect_all"):
+            # dropping the connections (end of a request, after a fork) is not a membership change: what is known about
+            # failing servers, and the way back into rotation for the dead ones, survive it
+            getattr(hc, kind)()
+            hist.append((kind,))
+            if env is not None:
+                mark = len(env.net.log)
+            continue
         if kind == "heal":
             s = servers[ev[1] % ns]
             world["failing"].pop(s, None)
@@ -495,6 +510,25 @@ def real_train_cases(tier, seed):
                                "recovery_op": ("get", "set_many", "get_many")[(sum(gaps) + n) % 3], "aws": bool((sum(gaps) + n + ra + ie) % 2)}
 
 
+def lifecycle_train_cases(tier, seed):
+    """probe trains with a close() / disconnect_all() of the HashClient inserted at every position"""
+    depth = 4 if tier == "quick" else 6
+    for ra in (0, 1, 2):
+        for ie in (False, True):
+            for n in range(1, depth + 1):
+                for gaps in itertools.product(range(3), repeat=n):
+                    opn = ("get", "set_many", "set", "get_many")[(sum(gaps) + n) % 4]
+                    ev = [["fail", 0, ("refused", "timeout", "reset", "oserror")[(n + ra) % 4]], ["op", opn, 0]]
+                    for g in gaps:
+                        ev += [["adv", GAPS[g]], ["op", opn, 0]]
+                    for pos in range(1, len(ev) + 1):
+                        if tier == "quick" and n >= 3 and (pos + sum(gaps)) % 2:
+                            continue
+                        how = ("close", "disconnect_all")[(pos + n) % 2]
+                        yield {"servers": 2 if (n + ra + pos) % 3 else 1, "retry_attempts": ra, "ignore_exc": ie, "backend": "scripted" if (pos + n) % 3 else "real", "recovery_step": 7,
+                               "events": ev[:pos] + [[how]] + ev[pos:], "recovery_op": ("get", "set_many", "get_many")[(sum(gaps) + n + pos) % 3]}
+
+
 def minimise(case, still_fails):
     ev = ddmin_list(case["events"], lambda e: still_fails(dict(case, events=e)))
     return dict(case, events=ev)
@@ -516,6 +550,7 @@ PARTS = [
     Part("exhaustive-depth", "enum", check, cases=exhaustive_cases, exhaustive=True, minimise=minimise, distinct_by_construction=True),
     Part("probe-trains", "enum", check, cases=probe_train_cases, exhaustive=True, minimise=minimise, distinct_by_construction=True),
     Part("real-probe-trains", "enum", check, cases=real_train_cases, exhaustive=True, minimise=minimise, distinct_by_construction=True),
+    Part("close-in-between", "enum", check, cases=lifecycle_train_cases, exhaustive=True, minimise=minimise, distinct_by_construction=True),
     Part("two-outages", "enum", check, cases=two_outage_cases, exhaustive=True, minimise=minimise, distinct_by_construction=True),
     Part("random-histories", "hyp", check, strategy=history_strategy,
          examples={"quick": 150, "thorough": 8000}, shards={"quick": 6, "thorough": 16}),
